@@ -2,7 +2,6 @@
 package c08
 
 import (
-	"errors"
 	"bytes"
 	"crypto/ecdsa"
 	"crypto/elliptic"
@@ -12,6 +11,7 @@ import (
 	"crypto/x509"
 	"crypto/x509/pkix"
 	"encoding/base64"
+	"errors"
 	"fmt"
 	"io"
 	"math/big"
@@ -68,7 +68,8 @@ func genKeys() {
 	if err != nil {
 		panic(err)
 	}
-	_, rder := mkCert(leafT(10), inter, &rk.PublicKey, inKey)
+	// the RSA signer has the same serial number as the intermediate: serial numbers are unique per issuer only
+	_, rder := mkCert(leafT(2), inter, &rk.PublicKey, inKey)
 	ek, _ := ecdsa.GenerateKey(elliptic.P256(), realRand)
 	_, eder := mkCert(leafT(11), inter, &ek.PublicKey, inKey)
 	keys["rsa"] = &keyset{leaf: tls.Certificate{Certificate: [][]byte{rder}, PrivateKey: rk},
